@@ -1,6 +1,6 @@
 SPECIFICATION Spec
 CONSTANTS
-  MaxKeys = 5
+  MaxKeys = 4
   MaxPage = 3
   Export = TRUE
 INVARIANT Inv_Result
